@@ -186,7 +186,7 @@ UpdateRangeP(r, kw, newpk) ==
     /\ kwe' = kwe
     /\ IF r = rng /\ kw /\ kwe
        THEN UNCHANGED <<rng, pk, vw, vp>>          \* RangeUnchangedNoOp
-       ELSE /\ PeaksAllowed(newpk, r)
+       ELSE /\ PeaksAllowed(newpk, r) = TRUE
             /\ rng' = r /\ pk' = newpk
             /\ vp' = MaskVP(newpk) /\ vw' = MaskVW(newpk)
     /\ UNCHANGED cv
